@@ -15,7 +15,8 @@ History clause: one element undergoes up to 10^4 mixed operations (X@Y, Y@X, Inv
 Retr, +); after every operation the raw element is read and must be finite, have positive
 scale and ||q|-1| <= 4*u*(n+1) (the initial rounding counts as one operation); a longdouble shadow matrix driven
 by the same operations (lie_ref.exp_matrix for increments) must still be represented by the
-element within an error budget that grows by C_H*u*(magnitudes of the step) per operation.
+element within an error budget that grows by C_H*u*(magnitudes of the step) per operation
+(plus what C01 allows Exp of the increment to be off, see hostile_operands).
 """
 import numpy as np
 import torch
@@ -40,7 +41,10 @@ ASSUME = ["lie_ref.group_matrix / exp_matrix in longdouble (exp_matrix is valida
           "tolerance C*u*(product of magnitude matrices [[s,|t|],[0,1]] of the factors), C=32 for single operations "
           "and products of two, 48 for triples",
           "history shadow budget per step: rotation 32u + 4*measured quaternion drift; translation the same times the "
-          "magnitudes entering the step; Exp of an increment is trusted to C01's tolerance (64 u |tau| max(1,e^sigma))",
+          "magnitudes entering the step; the accuracy of Exp of an increment is C01's clause: budgeted with 8x the measured "
+          "distance of the library's Exp(a) from lie_ref.exp_matrix(a), capped by C01's tolerance (64u rotation, "
+          "8 sqrt(u)|t| + 64 u |tau| max(1,e^sigma) translation)",
+          "unit quaternion of a single product / inverse: 16u / 8u (24u for triples); history: 4u(n+1)",
           "identity_() exists only for SO3 (NotImplementedError elsewhere is not judged)", "CPU only"]
 
 C1, C2, C3 = 32.0, 32.0, 48.0          # single op / two factors / three factors
